@@ -53,6 +53,12 @@ CHECKS = {
     text='Differential: the same text or job is observed after a generated history and on fresh objects; any difference in result, error text, listing, trace, time-pattern tables or stdout is a violation. No reference semantics needed, so nothing is discarded.',
     design='DESIGN.md section 3, C17',
     note='Trusts the harness reset of simulated device state between runs; crashes during parse are compared by exception type only.'),
+ 'C12': dict(
+    technique='differential fault injection: Hypothesis-generated scripts x generated per-request fault plans at the lifxlan boundary, compared with the fault-free run (itself checked against the reference interpreter); exhaustive enumeration of single-fault discovery scenarios',
+    category='fault_enumeration',
+    text='Faults are injected per attempt of individual logical requests (first 1, 2 or 3 attempts fail) on generated subsets of devices; the discovery fault space (device x request x attempts x before/after a good discovery) is enumerated completely for a 4-light population. Script-level fault plans are sampled, not enumerated.',
+    design='DESIGN.md section 3, C12',
+    note='Fault model is WorkflowException at the simulated lifxlan object; logical-request boundaries come from thin marker wrappers around bardolph.controller.lifx_lan_light methods; retry bound taken from the property text (three attempts).'),
 }
 PENDING_REASON = 'check not built yet in this session; planned as described in DESIGN.md (property-based / fuzzing check, same runner)'
 
